@@ -84,9 +84,10 @@ def accumIndexesLoop (o : RingOps F) (γ : F) : List Nat → F → F → Nat →
 def accumIndexes (o : RingOps F) (γ : F) (idxs : List Nat) : F :=
   accumIndexesLoop o γ idxs o.zero γ 1
 
-/-- `RevocationRegistry::initial_state` -/
+/-- `RevocationRegistry::initial_state`: `if issuance_by_default && max_cred_num > 0` (the
+    second conjunct was added in /repo: `accum_range(1..=0)` reads the empty range as `0..=1`) -/
 def initialState (o : RingOps F) (γ : F) (L : Nat) (byDefault : Bool) : F :=
-  if byDefault then accumRange o γ 1 L else o.zero
+  if byDefault && L > 0 then accumRange o γ 1 L else o.zero
 
 /-- insertion into an ascending duplicate-free list (BTreeSet) -/
 def insertAsc (x : Nat) : List Nat → List Nat
